@@ -2061,6 +2061,26 @@ static int val_flt_to_str (hawk_rtx_t* rtx, const hawk_val_flt_t* v, hawk_rtx_va
 	int buf_inited = 0, fbu_inited = 0;
 	int type = out->type & ~HAWK_RTX_VALTOSTR_PRINT;
 
+	/* a number whose value is an exact integer is converted as if by %d.
+	 * CONVFMT and OFMT apply to the other numbers only. otherwise
+	 * 1e6, 2.0 * 1000000 or 2 ^ 24 would turn into 1e+06, 2e+06, 1.67772e+07 */
+	if (v->val >= (hawk_flt_t)HAWK_TYPE_MIN(hawk_int_t) && v->val < -(hawk_flt_t)HAWK_TYPE_MIN(hawk_int_t))
+	{
+		hawk_int_t iv = (hawk_int_t)v->val;
+		if ((hawk_flt_t)iv == v->val)
+		{
+			hawk_val_t* tmpv;
+			int n;
+
+			tmpv = hawk_rtx_makeintval(rtx, iv);
+			if (HAWK_UNLIKELY(!tmpv)) return -1;
+			hawk_rtx_refupval (rtx, tmpv);
+			n = val_int_to_str(rtx, (hawk_val_int_t*)tmpv, out);
+			hawk_rtx_refdownval (rtx, tmpv);
+			return n;
+		}
+	}
+
 	if (out->type & HAWK_RTX_VALTOSTR_PRINT)
 	{
 		tmp = rtx->gbl.ofmt.ptr;
